@@ -58,6 +58,8 @@ def main():
             return ScriptedBaseFault(msg)
         if k % 7 == 5:
             return BadStrFault(msg)
+        if k % 11 == 4:
+            return StopIteration(msg)       # next() on an exhausted iterator inside the callback: iterator machinery must not eat it
         if k % 4 == 1:
             return AttributeError(msg)      # what a misspelt attribute inside the callback raises
         if k % 4 == 2:
@@ -172,6 +174,12 @@ def main():
 
     class Shared:
         pass
+
+    class CallableInt(int):
+        """compares (and serialises) like the int it is, and can be called"""
+
+        def __call__(self, *a, **kw):
+            return -424242
     from magicbot import tunable
     robot_holder = [None]
     comp_classes = []
@@ -188,7 +196,9 @@ def main():
         for a in range(nattr):
             d = case["marked"].get("%d,%d" % (i, a))
             target = basens if (spec["inherit"] and a % 2 == 0) else ns
-            target[an(a)] = will_reset_to(d) if d is not None else 0
+            # every third declared default is a callable used as a plain value (a function as a "do nothing" strategy, a class
+            # as a tag): the attribute is set back to that very object, nobody calls it
+            target[an(a)] = will_reset_to(CallableInt(d) if (i + a) % 3 == 0 else d) if d is not None else 0
             if spec["inherit"] and spec.get("redeclare") and a % 2 == 1 and d is not None:
                 # the base class declares the same marker with another default: the subclass's wins
                 basens[an(a)] = will_reset_to(d + 1000)
